@@ -77,6 +77,10 @@ def Cfg.round3 : Cfg :=
   { validateFirstPin := true, specPats := [[','], ['>'], ['<'], ['~', '='], ['!', '=']], stripBom := true,
     nameCheck := false, normNames := false, normRecKeys := false, tolerantCmp := false, recordPartial := false }
 
+/-- hand-written: the code after the repair of C20-F9 (`same_version`); what `current` is generated to be today
+(`Props.C20_current_shape`) -/
+def Cfg.round4 : Cfg := { Cfg.round3 with tolerantCmp := true }
+
 /-- before `fix:` ed5a646 (finding C20-F8): files read with `encoding="utf-8"` -/
 def Cfg.preBomFix : Cfg := { Cfg.round3 with stripBom := false }
 
